@@ -176,6 +176,9 @@ V("O12.arms", ["C12", "C02", "C03", "C05"], "c12_calls", expect_verified=3,
 V("O12.4", ["C12", "C02", "C05", "C11"], "c12_callsite", expect_verified=11,
   functions=["Compiler::compile_expression arms Expr::Call, Expr::Array, Expr::Index, Expr::Prefix, Expr::Bool, Expr::Int, Expr::Float, Expr::String", "Compiler::compile_statement arms Stmt::Expr, Stmt::Return, Stmt::Block"],
   desc="call site: arguments compiled left to right, then the callee (or the builtin's byte), argc == argument count <= 255; array elements left to right + count; index: target, index, IndexGet; prefix operators; literals (Int constant slot holds the literal, out-of-range literal is an error with nothing emitted); expression statement ends in Pop; antwoord outside a function is a SyntaxError with nothing emitted")
+V("O02.ind", ["C02", "C11", "C09", "C10", "C12"], "c02_dispatch", expect_verified=3,
+  functions=["Compiler::compile_expression (whole function, 14 arms outlined)", "Compiler::compile_statement (whole function, 6 arms outlined)"],
+  desc="closes the structural induction of the code generator: for EVERY kind of expression / statement (real match; an arm that no unit holds is a lost anchor) success implies the generator contract gen_post that all arms assume of their recursive calls; each outlined arm's contract is taken from the unit that verifies the arm's real text (//@ASSUMES checks the clause and the precondition literally)")
 V("O02.blocks", ["C02", "C09", "C12", "C11", "C05"], "c02_blocks", expect_verified=2,
   functions=["Compiler::compile_block_statement", "Compiler::compile_expression arm Expr::Function"],
   desc="blocks: an empty block is one Null; every statement of a non-empty block is compiled in order, back to back, ONE SCOPE DEEPER, depth restored (names cease to exist at block end). Function definitions: jumped over; the body ALWAYS ends in ReturnValue / Return (control cannot run off its end); entry point = first byte of the body; slot count from the symbol table; body compiled in a fresh function context with parameters declared first and no enclosing loop visible (both restored); a named function is declared before its body and stored in its slot")
@@ -344,10 +347,10 @@ PROPERTIES = {
     "C11": {
         "level": "proof",
         "claim": "Jump emission and patching are proved per arm on the real compiler code (Verus, verbatim arms Expr::If, Expr::While, Stmt::Break, Stmt::Continue for code buffers and loop nestings of every size): every jump of an if / while / stop / volgende ends up targeting exactly the position the construct's meaning requires, stop/volgende touch the innermost loop context only, and misplaced ones are rejected before anything is emitted; the machine's Jump / JumpIfFalse / Pop / Null arms do what the operands say (unit c02_arms); operand patching changes exactly two bytes (Kani).",
-        "note": "Trusted: Verus/Z3, extraction rules R1,R4,R4d,R12,R13 + ghost hints (erased). ASSUMED (induction hypothesis, stated as gen_post in prelude_compiler.rs): the recursive compile_expression / compile_block_statement calls are append-only, keep the peephole invariant, restore the loop nesting and record only well-formed stop jumps - verified for the arms under contract, not for all arms. NOT decided: the VALUE of a branch / absence of residue per iteration (needs stack typing of the emitted code), antwoord from nested depth (composition with C12).",
+        "note": "Trusted: Verus/Z3, extraction rules R1,R4,R4d,R12,R13 + ghost hints (erased). The induction hypothesis the arms use for their recursive calls (gen_post in prelude_compiler.rs: on success append-only, peephole invariant kept, loop nesting restored, only well-formed stop jumps recorded, constants only grow, scope shape restored) is PROVED: every arm and compile_block_statement ensure it (lemmas genpost_lemmas.rs), and unit c02_dispatch verifies compile_expression / compile_statement as whole functions (real match, every arm outlined, rule R15) against it. Residual assumption: an Infix node carries a binary operator (parser fact; otherwise compile_operator panics). NOT decided: the VALUE of a branch / absence of residue per iteration (needs stack typing of the emitted code), antwoord from nested depth (composition with C12).",
         "design_ref": "DESIGN.md 3.8",
-        "undecided": ["branch values and stack balance per iteration (compile-side stack typing)", "induction hypothesis gen_post for the arms not under contract"],
-        "assumptions": ["gen_post for recursive generator calls (prelude_compiler.rs)"],
+        "undecided": ["branch values and stack balance per iteration (compile-side stack typing)"],
+        "assumptions": ["every Infix node carries a binary operator (precondition of the dispatcher obligation O02.ind; parser fact)", "termination of the recursive generators (structural recursion over the tree; Verus checks partial correctness of exec code)"],
     },
     "C10": {
         "level": "proof",
@@ -355,7 +358,7 @@ PROPERTIES = {
         "note": "Trusted: Verus/Z3, Kani/CBMC, extraction rules R1,R1p,R4; helper contracts emit_* (O02.emit). Assumed: Infix nodes carry a binary operator (parser guarantee). NOT decided: equivalence of whole programs under the four transformations (relational; needs the compile-side half of C02).",
         "design_ref": "DESIGN.md 3.7",
         "undecided": ["whole-program equivalence under globals<->locals / literal<->variable / mirroring / constant-pool shifts (composition)"],
-        "assumptions": ["recursive compile_expression / compile_block_statement calls satisfy the induction hypothesis stated in prelude_compiler.rs"],
+        "assumptions": ["every Infix node carries a binary operator (parser fact; precondition of arm_infix and of the dispatcher obligation O02.ind)"],
     },
     "C12": {
         "level": "proof",
